@@ -13,7 +13,7 @@ ASSUME = ["faults are injected into file-related system calls only (not memory m
           "an injected errno replaces the call (the kernel does not execute it)",
           "quick tier samples (seeded) the (index, errno) space per call; thorough enumerates all indices x catalogue",
           "tolerated failures are recognised by outcome equality with the unfaulted run, not by a site whitelist"]
-CATALOGUE = [24, 23, 12, 13, 5, 4, 38, 11]   # EMFILE ENFILE ENOMEM EACCES EIO EINTR ENOSYS EAGAIN (ENOENT/ELOOP are answers, not faults: a lookup that is told "no such file" legitimately acts on it)
+CATALOGUE = [24, 23, 12, 13, 5, 4, 38, 11, 1, 28]   # EMFILE ENFILE ENOMEM EACCES EIO EINTR ENOSYS EAGAIN EPERM ENOSPC (ENOENT/ELOOP are answers, not faults: a lookup that is told "no such file" legitimately acts on it)
 
 
 def tree_shape(snap, root_only=None):
@@ -101,11 +101,20 @@ def main(tier_):
                     chosen = rnd.sample(sites, min(3, len(sites)))
             else:
                 chosen = sites
+            procop = bc["calls"][j].get("op") in ("reopen", "proc_open", "proc_open_follow", "proc_readlink")
             if quick:
                 # the call that does the operation's work (the one mutating *at syscall) always gets the whole catalogue
                 chosen = list(dict.fromkeys(chosen + [x for x in sites if x[1] in WORK and x[2] == "tree"]))
-            for (i, nr, cls) in chosen:
-                errs = rnd.sample(CATALOGUE, 2) if quick and not (nr in WORK and cls == "tree") else CATALOGUE
+                if procop:
+                    # procfs lookups are short and made of probe / verify / open stages that cover for each other's errors:
+                    # every procfs-relative syscall of the call gets one fault (errno rotating through the catalogue)
+                    chosen = list(dict.fromkeys(chosen + [x for x in sites if x[2] == "proc"]))
+            for ci_, (i, nr, cls) in enumerate(chosen):
+                if quick and procop and cls == "proc":
+                    errs = [CATALOGUE[(ci_ + j) % len(CATALOGUE)]]
+                else:
+                    errs = rnd.sample(CATALOGUE, 2) if quick and not (nr in WORK and cls == "tree") else CATALOGUE
+                errs = list(dict.fromkeys(errs))
                 for en in errs:
                     c = copy.deepcopy(bc)
                     c["id"] = "flt|%s|%s|%s|c%d|i%d|%s|%d" % (bc["meta"]["scenario"], bc["meta"]["feat"], "cold" if bc.get("cold") else "warm", j, i, nr, en)
